@@ -63,6 +63,11 @@ theorem full_pages_le {β : Type} (limit : Nat) :
       simp only [List.length_cons, Nat.add_sub_cancel] at h1 ⊢
       rw [Nat.succ_mul]; omega
 
+theorem nodup_reverse' {γ : Type} {l : List γ} (h : l.Nodup) : l.reverse.Nodup := by
+  unfold List.Nodup at h ⊢
+  rw [List.pairwise_reverse]
+  exact h.imp (fun h e => h e.symm)
+
 theorem uncurry_fst {α : Type} : (uncurry fun (k : Bytes) (_ : α) => k) = Prod.fst := by
   funext p; rfl
 
@@ -96,10 +101,13 @@ theorem paginate_by_key_complete {α β : Type} (store : Store α) (hs : Sorted 
     have := isPage_take g limit hl (dir reverse store) 0
     simpa using this
   obtain ⟨pages, hrun, hflat, hpne, hdrop, hle, hnonempty⟩ :=
-    pagesAux_spec (fun _ _ => true) g limit reverse _ (dir reverse store) (keysNonempty_dir hk) hkey
+    pagesAux_spec (fun _ _ => true) g limit reverse (fun req => paginate store req (Callback.appendAlways f))
+      (dir reverse store) (keysNonempty_dir hk) hkey
       (store.length + 1) [] (dir reverse store) none rfl h0 (by rw [dir_length]; omega)
   have hflat' : pages.flatten = (dir reverse store).map (uncurry g) := by
-    rw [hflat, List.filter_eq_self.mpr (fun _ _ => rfl)]
+    have e : (dir reverse store).filter (uncurry fun (_ : Bytes) (_ : α) => true) = dir reverse store :=
+      List.filter_eq_self.mpr (fun _ _ => rfl)
+    rw [hflat, e]
   refine ⟨pages, hrun, hflat', ?_, ?_, hdrop, hle⟩
   · intro he
     apply pages_of_flatten_nil hl hpne _ hdrop
@@ -144,7 +152,7 @@ theorem paginate_by_key_exactly_once {α : Type} (store : Store α) (hs : Sorted
   · rw [h2]
     cases reverse with
     | false => exact sorted_keys_nodup hs
-    | true => rw [dir_true, List.map_reverse, List.nodup_reverse]; exact sorted_keys_nodup hs
+    | true => rw [dir_true, List.map_reverse]; exact nodup_reverse' (sorted_keys_nodup hs)
   · intro k
     rw [h2]
     cases reverse with
@@ -190,8 +198,8 @@ theorem paginate_by_offset_complete {α β : Type} (store : Store α) (hk : Keys
     intro off hoff
     rw [dir_length] at hoff
     exact paginate_offset_eq store f g hf off limit hl false reverse (by omega) (by omega)
-  obtain ⟨pages, h1, h2, h3, _⟩ := offsetPagesAux_spec g limit hl reverse _ (dir reverse store)
-    (keysNonempty_dir hk) hrun (store.length + 1) 0 (by omega) (by rw [dir_length]; omega)
+  obtain ⟨pages, h1, h2, h3, _⟩ := offsetPagesAux_spec g limit hl reverse
+    (fun req => paginate store req (Callback.appendAlways f)) (dir reverse store) (keysNonempty_dir hk) hrun (store.length + 1) 0 (by omega) (by rw [dir_length]; omega)
   exact ⟨pages, h1, by simpa using h2, h3⟩
 
 /-! ## 3. `FilteredPaginate` with the `filter` callback -/
@@ -223,7 +231,8 @@ theorem filtered_by_key_complete {α β : Type} (store : Store α) (hs : Sorted 
     have := isPage_of_window pred g limit hl (dir reverse store) 0
     simpa using this
   obtain ⟨pages, hrun, hflat, hpne, hdrop, hle, _⟩ :=
-    pagesAux_spec pred g limit reverse _ (dir reverse store) (keysNonempty_dir hk) hkey
+    pagesAux_spec pred g limit reverse (fun req => filteredPaginate store req (Callback.filter pred f))
+      (dir reverse store) (keysNonempty_dir hk) hkey
       (store.length + 1) [] (dir reverse store) none rfl h0 (by rw [dir_length]; omega)
   refine ⟨pages, hrun, hflat, hdrop, hle, List.length_pos_iff.mpr hpne, ?_⟩
   have h := full_pages_le limit pages hdrop
@@ -272,7 +281,8 @@ theorem filtered_by_offset_complete {α β : Type} (store : Store α) (hk : Keys
                ⟨(((dir reverse store).filter (uncurry pred))[off + limit]?).map Prod.fst, 0⟩) := by
     intro off hoff
     exact filteredPaginate_offset_eq store pred f g hf off limit hl false reverse (by omega)
-  obtain ⟨pages, h1, h2, h3, _⟩ := offsetPagesAux_spec g limit hl reverse _ _ hHne hrun
+  obtain ⟨pages, h1, h2, h3, _⟩ := offsetPagesAux_spec g limit hl reverse
+    (fun req => filteredPaginate store req (Callback.filter pred f)) _ hHne hrun
     (store.length + 1) 0 (by omega) (by omega)
   exact ⟨pages, h1, by simpa using h2, h3⟩
 
@@ -387,10 +397,13 @@ theorem reverse_key_at_greatest_panics :
       = .ok ([3, 2], ⟨some [1], 0⟩) := by
   decide
 
-/-- Key paging of `FilteredPaginate`: when the last match is followed by a non-matching record, the last
-page is empty (here the matches are the records with an even value: only `[1,0]`). -/
+/-- The last record does not match `odd4`. -/
+def store5 : Store Nat := [([1], 1), ([2], 3), ([3], 2)]
+
+/-- Key paging of `FilteredPaginate`: the next key of a key-paged request is the key of the *record*
+after the `limit`-th match; when no match follows, the last page is empty. -/
 theorem filtered_trailing_empty_page :
-    filteredPagesByKey store4 1 false (Callback.filter even4 val3) 5 = .ok [[2], []] := by
+    filteredPagesByKey store5 1 false (Callback.filter odd4 val3) 4 = .ok [[1], [3], []] := by
   decide
 
 /-! ## The hypotheses are satisfiable: the theorems instantiated on `store4` -/
